@@ -27,9 +27,11 @@ REQUIRE = {'chain_dfxp': 50, 'chain_sami': 50, 'chain_dfxp>sami': 30, 'chain_sam
            'reader_captions_balance_checked': 200, 'chars_compared': 5000, 'spans_across_break': 50,
            'adjacent_spans': 50, 'empty_spans': 20, 'italic_chars': 500, 'bold_chars': 200, 'underline_chars': 200, 'positioned_captions': 30, 'suite_captions_balance_checked': 300,
            'rollup_streams_with_italics_read': 20, 'dfxp_documents_round_tripped': 20,
-           'webvtt_sets_with_class_styled_spans': 20, 'dfxp_documents_with_attribute_spellings': 20}
+           'webvtt_sets_with_class_styled_spans': 20, 'dfxp_documents_with_attribute_spellings': 20,
+           'sami_documents_with_attribute_spellings': 20}
 
 KINDS = [{'italics': True}, {'italics': True}, {'bold': True}, {'underline': True}, {'italics': True, 'bold': True},
+         {'italics': True, 'underline': False}, {'bold': True, 'italics': False, 'underline': False},
          {'italics': True, 'text-align': 'right'}, {'italics': True, 'color': 'red', 'font-family': 'Arial'}]
 
 
@@ -62,6 +64,12 @@ DFXP_ATTRS = [('tts:fontStyle="italic"', 0), ('tts:fontWeight="bold"', 1), ('tts
               ('tts:fontStyle="italic" tts:fontWeight="bold"', (0, 1)), ('tts:color="red"', None)]
 
 
+SAMI_ATTRS = [('font-style:italic;', 0), ('font-weight:bold;', 1), ('text-decoration:underline;', 2),
+              ('text-decoration:none;', None), ('text-decoration:line-through;', None), ('font-style:normal;', None),
+              ('font-weight:normal;', None), ('font-style:italic;font-weight:bold;', (0, 1)), ('color:red;', None),
+              ('font-weight:bold;text-decoration:underline;', (1, 2)), ('font-family:Arial;font-style:italic;', 0)]
+
+
 def flag_lines(rng, tag, fmt):
     """Lines of plain words with flat spans, each span carrying one DFXP attribute spelling."""
     lines = []
@@ -69,7 +77,7 @@ def flag_lines(rng, tag, fmt):
         segs = [['t', f'{tag}.{k} ']]
         for _ in range(rng.randrange(1, 4)):
             if rng.random() < 0.6:
-                attr, flag = rng.choice(DFXP_ATTRS)
+                attr, flag = rng.choice(SAMI_ATTRS if fmt == 'sami' else DFXP_ATTRS)
                 segs.append(['o', 'attr', attr, flag])
                 segs.append(['t', T.word(rng, p_meta=0, p_uni=0.1)])
                 segs.append(['c', 'attr'])
@@ -158,10 +166,14 @@ def cases(ctx):
             d = docs.gen_dfxp_styled(rng, f'Y{ctx.shard}.{i}')
             yield {'kind': 'doc-chain', 'doc': d['doc']}
             continue
-        if i % 6 == 2 and rng.random() < 0.4:
-            d = docs.gen_dfxp(rng, f'Y{ctx.shard}.{i}', text=flag_lines, nlang=1)
+        if i % 6 == 2 and rng.random() < 0.5:
+            if rng.random() < 0.6:
+                d = docs.gen_dfxp(rng, f'Y{ctx.shard}.{i}', text=flag_lines, nlang=1)
+            else:
+                d = docs.gen_sami(rng, f'Y{ctx.shard}.{i}', text=flag_lines, nlang=1, same_sync_twice=0, inline_lang=0)
             if d['expected'][0]['cues']:
-                yield {'kind': 'doc-flags', 'doc': d['doc'], 'cues': [c['segs'] for c in d['expected'][0]['cues']]}
+                yield {'kind': 'doc-flags', 'format': d['format'], 'doc': d['doc'],
+                       'cues': [c['segs'] for c in d['expected'][0]['cues']]}
                 continue
         if i % 6 == 5 and rng.random() < 0.5:
             from vf.gen import sccprog
@@ -286,11 +298,13 @@ def check(case, ctx):
         # a DFXP document whose spans spell the three attributes in every legal way: what the reader marks
         # italic / bold / underlined must be what the document says, observed on the WebVTT output
         try:
-            cs = pycaption.DFXPReader().read(case['doc'])
+            reader = pycaption.SAMIReader if case.get('format') == 'sami' else pycaption.DFXPReader
+            cs = reader().read(case['doc'])
             out = pycaption.WebVTTWriter().write(cs)
         except Exception as e:
-            return [{'what': 'DFXP -> WebVTT raised', 'error': repr(e)[:300]}]
-        ctx.count('dfxp_documents_with_attribute_spellings')
+            return [{'what': 'document -> WebVTT raised', 'format': case.get('format'), 'error': repr(e)[:300]}]
+        ctx.count('sami_documents_with_attribute_spellings' if case.get('format') == 'sami'
+                  else 'dfxp_documents_with_attribute_spellings')
         cues = parsers.parse_webvtt(out)
         if len(cues) != len(case['cues']):
             return [{'what': 'number of WebVTT cues differs', 'expected': len(case['cues']), 'got': len(cues)}]
